@@ -211,6 +211,10 @@ pub async fn run_config(cfg_name: &str, rep: &mut Report, ops: &mut Vec<String>,
         ("DELETE", "delete_file", file_path.clone(), None, true),
         ("POST", "update_account", "/sync/account".into(), Some(b"not-an-update-set".to_vec()), true),
         ("DELETE", "delete_account", "/sync/account".into(), None, true),
+        // the change-notification socket: a real websocket handshake (without the upgrade headers the request is refused
+        // before authentication is reached); the handler answers 400 for every authentication failure, so only the
+        // implementation-side oracles apply (no model line)
+        ("GET", "upgrade", "/sync/changes".into(), None, false),
     ];
     for phase in ["before-revocation", "after-revocation"] {
         if phase == "after-revocation" {
@@ -249,6 +253,7 @@ pub async fn run_config(cfg_name: &str, rep: &mut Report, ops: &mut Vec<String>,
                 if let Some(h) = hdr_acct { rq = rq.header("X-SOS-ACCOUNT-ID", h.to_string()); }
                 if let Some(t) = &tok { rq = rq.header("Authorization", format!("Bearer {t}")); }
                 if let Some(b) = body { rq = rq.header("content-type", "application/x-protobuf").body(b.clone()); }
+                if *handler == "upgrade" { rq = rq.header("Connection", "Upgrade").header("Upgrade", "websocket").header("Sec-WebSocket-Version", "13").header("Sec-WebSocket-Key", "dGhlIHNhbXBsZSBub25jZQ=="); }
                 let resp = rq.send().await;
                 let code = match &resp { Ok(r) => r.status().as_u16(), Err(_) => 0 };
                 if std::env::var("HTRACE").is_ok() && cred == CredKind::Valid { if let Ok(r) = resp { eprintln!("{} {} -> {} {:?}", method, path, code, r.text().await.ok().map(|t| t.chars().take(200).collect::<String>())); } }
@@ -275,8 +280,10 @@ pub async fn run_config(cfg_name: &str, rep: &mut Report, ops: &mut Vec<String>,
                 }
                 rep.count(&format!("{}:{:?}:{}", cfg_name, cred, code));
                 rep.case(&format!("{cfg_name}|{phase}|{op}|{method}|{path}"), true);
-                ops.push(op);
-                imp.push(decision.to_string());
+                if *handler != "upgrade" {
+                    ops.push(op);
+                    imp.push(decision.to_string());
+                }
             }
         }
     }
@@ -337,6 +344,7 @@ pub async fn run_config(cfg_name: &str, rep: &mut Report, ops: &mut Vec<String>,
                 let m = reqwest::Method::from_bytes(method.as_bytes())?;
                 let mut rq = http.request(m, format!("{base}{path}?connection_id=verif")).header("X-SOS-ACCOUNT-ID", a1.id.to_string()).header("Authorization", format!("Bearer {tok}"));
                 if let Some(b) = body { rq = rq.header("content-type", "application/x-protobuf").body(b.clone()); }
+                if *handler == "upgrade" { rq = rq.header("Connection", "Upgrade").header("Upgrade", "websocket").header("Sec-WebSocket-Version", "13").header("Sec-WebSocket-Key", "dGhlIHNhbXBsZSBub25jZQ=="); }
                 let code = rq.send().await.map(|r| r.status().as_u16()).unwrap_or(0);
                 rep.case(&format!("{cfg_name}|after-forced-revocation|{handler}|{method}|{path}"), true);
                 rep.count(&format!("{cfg_name}:RevokedByForcedUpdate:{code}"));
@@ -368,7 +376,7 @@ pub fn run(cli: &Cli) {
     }
     rep.diff_streams("corr:auth", &ops, &imp);
     rep.exhaustive = true;
-    rep.rule = "finite product, enumerated completely: 15 authenticated routes x 9 credential forms (none, malformed, legacy dotted, unknown key, revoked key, valid key over other bytes, valid key of another account, no account header, valid) \\
+    rep.rule = "finite product, enumerated completely: 16 authenticated routes (incl. the websocket handshake of /sync/changes) x 9 credential forms (none, malformed, legacy dotted, unknown key, revoked key, valid key over other bytes, valid key of another account, no account header, valid) \\
         x 5 access configurations (none, allow incl., allow excl., deny incl., deny other) x before/after device revocation, against a live in-process server on loopback; \\
         HTTP status class and server state before/after each request; distinct = distinct (config, phase, route, credential)".into();
     rep.write(&cli.out);
